@@ -256,6 +256,14 @@ impl<'a> SendStream<'a> {
             .ok_or(WriteError::ClosedStream)?;
 
         if limit == 0 {
+            // A stream that cannot be written any more says so rather than asking the caller to
+            // wait for a window it will never use
+            if !stream.is_writable() {
+                return Err(WriteError::ClosedStream);
+            }
+            if let Some(error_code) = stream.stop_reason {
+                return Err(WriteError::Stopped(error_code));
+            }
             trace!(
                 stream = %self.id, max_data = self.state.max_data, data_sent = self.state.data_sent,
                 "write blocked by connection-level flow control or send window"
